@@ -24,7 +24,11 @@
 (*                       err : BOOLEAN]        the error flag              *)
 (*               (dyn => out = <<>> /\ err)                                *)
 (*   values are TOKENS 0..2: 0 = the zero value of the type (nil for       *)
-(*   nilable types), 1 and 2 = two non-zero values.                        *)
+(*   nilable types), 1 and 2 = two non-zero values.  Values of the type    *)
+(*   `error` have tokens 0..6, the ERROR TOKENS (ErrTokClass): what a      *)
+(*   handler can hand back as its error - among them errors that are or    *)
+(*   wrap the SDK's own *FunctionCallError, as happens when a handler      *)
+(*   calls another function and propagates its failure.                    *)
 (*   call = [args : Seq(token),  one value of the DECLARED type each,      *)
 (*           bad  : 0 or the position that carries a value of a foreign    *)
 (*                  type instead,                                          *)
@@ -98,18 +102,34 @@ CheckHandler(A, sig, decl) ==
                   rule |-> IF ev = "maybe" THEN "error_type" ELSE IF vv = "maybe" THEN "output_type" ELSE "none"]
 
 \* ------------------------------------------------------------------ calls
+\* tokens of values of type error.  Whatever the handler's error IS or WRAPS, it is "an error
+\* returned by the handler": function-reported, and the reported source is that very value.
+ErrTokClass == << "plain",                    \* 1  errors.New
+                  "plain",                    \* 2  another one
+                  "wraps_call_shape_error",   \* 3  fmt.Errorf("%w") around a *FunctionCallError that is
+                                              \*    NOT function-reported (an inner Call with a wrong
+                                              \*    argument count, propagated)
+                  "call_error_not_reported",  \* 4  such a *FunctionCallError itself
+                  "call_error_reported",      \* 5  a *FunctionCallError marked function-reported itself
+                  "typed_nil" >>              \* 6  a non-nil error interface holding a nil pointer
+TypedNilTok == 6
+TokDom(t) == IF t = ErrorT THEN 0..Len(ErrTokClass) ELSE 0..2
+
 FnOutcome(kind, tok, reported) == [kind |-> kind, tok |-> tok, reported |-> reported]
 \*   "value"      Call returns (the value with token tok, nil)
 \*   "void"       Call returns (nil, nil)
-\*   "error"      Call returns an error; reported = it is marked as reported by the function
+\*   "error"      Call returns an error; reported = it is marked as reported by the function;
+\*                for a reported error tok is the token of the handler's error value: the
+\*                reported source must be exactly that value
 \*   "open_shape" an argument is not of the declared type: the statement only demands that
 \*                this is not presented as the function's own error (error that is not
 \*                function-reported, or a panic)
 \*   "open_panic" the handler panicked: the statement is silent (panic propagates, or a
 \*                function-reported error)
-\*   "open_nilerr" (only on a leniently accepted cell) the error slot has a concrete nilable
-\*                type and the handler returned its nil: "no error" and Go's typed-nil-is-an-
-\*                error reading are both defensible (the value, or a function-reported error)
+\*   "open_nilerr" the handler returned a typed nil in the error slot (the nil of a concrete
+\*                nilable type on a leniently accepted cell, or an error interface holding a nil
+\*                pointer): "no error" and Go's typed-nil-is-an-error reading are both
+\*                defensible (the value, or a function-reported error)
 
 \* nil is not a value of an interface-typed parameter; a foreign value is not of the declared type
 WellTyped(A, decl, call) ==
@@ -131,9 +151,11 @@ CallOutcome(A, sig, decl, call) ==
        ELSE IF call.beh.k = "panic" THEN FnOutcome("open_panic", 0, FALSE)
        ELSE IF nr = nv THEN val
        ELSE IF nr = nv + 1 THEN
-            LET t == sig.results[nr] IN
-            IF ResultTok(call, nr) = 0 /\ A[t].nilable /\ ~A[t].iface THEN FnOutcome("open_nilerr", 0, FALSE)
-            ELSE IF NonNil(A, t, ResultTok(call, nr)) THEN FnOutcome("error", 0, TRUE) ELSE val
+            LET t == sig.results[nr]
+                et == ResultTok(call, nr) IN
+            IF (et = 0 /\ A[t].nilable /\ ~A[t].iface) \/ (t = ErrorT /\ et = TypedNilTok)
+            THEN FnOutcome("open_nilerr", 0, FALSE)
+            ELSE IF NonNil(A, t, et) THEN FnOutcome("error", et, TRUE) ELSE val
        ELSE FnOutcome("error", 0, FALSE)
 
 \* declaratively, over the declaration alone - the statement: "An accepted function called
@@ -145,17 +167,22 @@ CallDeclared(A, decl, call) ==
     IF Len(call.args) # Len(decl.inputs) THEN FnOutcome("error", 0, FALSE)
     ELSE IF ~WellTyped(A, decl, call) THEN FnOutcome("open_shape", 0, FALSE)
     ELSE IF call.beh.k = "panic" THEN FnOutcome("open_panic", 0, FALSE)
-    ELSE IF decl.err /\ ResultTok(call, NWanted(decl)) # 0 THEN FnOutcome("error", 0, TRUE)
+    ELSE IF decl.err /\ ResultTok(call, NWanted(decl)) = TypedNilTok THEN FnOutcome("open_nilerr", 0, FALSE)
+    ELSE IF decl.err /\ ResultTok(call, NWanted(decl)) # 0
+         THEN FnOutcome("error", ResultTok(call, NWanted(decl)), TRUE)
     ELSE IF HasValue(decl) THEN FnOutcome("value", ResultTok(call, 1), FALSE)
     ELSE FnOutcome("void", 0, FALSE)
 
 \* does an observation of the real Call meet an expected outcome?
 \* obs = [kind : "ok"|"error"|"panic", isnil : the returned value is nil,
-\*        toks : the tokens whose value equals the returned value, reported : BOOLEAN]
+\*        toks : the tokens whose value equals the returned value, reported : BOOLEAN,
+\*        srctoks : the tokens of the error slot's type whose value IS the reported source
+\*                  (identity / errors.Is on SourceError, or the returned error itself)]
 Meets(exp, obs) ==
     CASE exp.kind = "value"      -> obs.kind = "ok" /\ exp.tok \in RangeOf(obs.toks)
       [] exp.kind = "void"       -> obs.kind = "ok" /\ obs.isnil
-      [] exp.kind = "error"      -> obs.kind = "error" /\ obs.reported = exp.reported
+      [] exp.kind = "error"      -> /\ obs.kind = "error" /\ obs.reported = exp.reported
+                                    /\ exp.reported => exp.tok \in RangeOf(obs.srctoks)
       [] exp.kind = "open_shape" -> obs.kind = "panic" \/ (obs.kind = "error" /\ ~obs.reported)
       [] exp.kind = "open_panic" -> obs.kind = "panic" \/ (obs.kind = "error" /\ obs.reported)
       [] exp.kind = "open_nilerr" -> obs.kind = "ok" \/ (obs.kind = "error" /\ obs.reported)
